@@ -226,6 +226,27 @@ class Disposable:
         return None
 
 
+class _Awaitable:
+    """an awaitable that is not a coroutine"""
+
+    def __init__(self, coro: Any) -> None:
+        self.coro = coro
+
+    def __await__(self) -> Any:
+        return self.coro.__await__()
+
+
+class AwaitableDisposable(Disposable):
+    """the async context manager protocol only asks for awaitables: here __aenter__ / __aexit__ are plain methods handing out an
+    awaitable object and a Future (what `loop.run_in_executor(None, self.close)` would return)"""
+
+    def __aenter__(self) -> Any:  # type: ignore[override]
+        return _Awaitable(Disposable.__aenter__(self))
+
+    def __aexit__(self, et: Any, ev: Any, tb: Any) -> Any:  # type: ignore[override]
+        return asyncio.ensure_future(Disposable.__aexit__(self, et, ev, tb))
+
+
 class World:
     """per-execution harness state shared by the interpreter and the monitors"""
 
@@ -677,7 +698,7 @@ async def run_block(W: World, block: dict[str, Any], rng: random.Random | None) 
     if kind == "ascope":
         kw: dict[str, Any] = {}
         if block.get("disposables"):
-            ds = [Disposable(W, i, spec, name) for i, spec in enumerate(block["disposables"])]
+            ds = [(AwaitableDisposable if spec.get("awaitable") else Disposable)(W, i, spec, name) for i, spec in enumerate(block["disposables"])]
             W.disposables[name] = ds
             kw["disposables"] = ds
         if block.get("completion"):
